@@ -45,8 +45,8 @@ def bounds(tier):
 def _program(shape, ctx):
     if ctx == "loop":
         return families.c16_program(shape)
-    body = "def main():\n%s\n    print(\"fall\", 0)\n    return 5\n" % families._ind(shape, 1)
-    return families.prelude(8) + families.C16_PRELUDE_EXTRA + body + "\n\nprint(main())\n"
+    body = "def main(p):\n%s\n    print(\"fall\", 0)\n    return 5\n" % families._ind(shape, 1)
+    return families.prelude(8) + families.C16_PRELUDE_EXTRA + body + "\n\nprint(main(inp()))\n"
 
 
 def ob_blocking(shape, ctx, lits):
